@@ -12,7 +12,8 @@ RULE = ("(i) valid alignments under random re-layouts (line width, CRLF, blank l
         "mutations of valid files and short random byte strings. Non-trivial: layout other than one-line-per-sequence, "
         "or malformed. Distinct by (reader, file bytes).")
 ASSUMPTIONS = ["header text is ASCII (strings.Fields on UTF-8 white space is outside the model)",
-               "lines shorter than the 1 MiB scanner token limit"]
+               "lines shorter than the 1 MiB scanner token limit (long lines of 70,000 and 200,000 symbols are exercised Go against Go: "
+               "one-line layout vs 70-column layout must read alike in every reader)"]
 
 
 def make_case(cid, reader, hard, refid, data, meta, expect=None):
@@ -96,3 +97,36 @@ def post_go(ctx, cases, obs):
             if o["status"] != "ok" or cm.unb64(o["out"]) != c["expect"]:
                 bad.append(c)
     return bad
+
+
+def extra(ctx, obl, cases, obs):
+    """Long lines (beyond bufio.Scanner's 64 KiB default, within the readers' 1 MiB limit): layout independence Go vs Go."""
+    rng = ctx.rng
+    stage = []
+    plan = []
+    for width in ([70000] if ctx.tier == "quick" else [70000, 200000]):
+        recs = [("long%d extra text" % i, gen.rand_seq(rng, width, gen.SYMS17)) for i in range(2)]
+        one = gen.layout(rng, recs, "plain")
+        wrapped = b"".join(b">" + h.encode() + b"\n" + b"\n".join(s[i:i + 70].encode() for i in range(0, len(s), 70)) + b"\n" for h, s in recs)
+        for reader in READERS:
+            hard = rng.random() < 0.5
+            a, b = len(stage), len(stage) + 1
+            stage.append({"id": a, "op": "read_fasta", "reader": reader, "hard": hard, "file": cm.b64(one), "refid": cm.b64(b"long1")})
+            stage.append({"id": b, "op": "read_fasta", "reader": reader, "hard": hard, "file": cm.b64(wrapped), "refid": cm.b64(b"long1")})
+            plan.append((reader, width, a, b))
+    res = cm.go_run(stage, ctx.log)
+    _state["long_line_runs"] = len(stage)
+    for reader, width, a, b in plan:
+        ra, rb = res[a], res[b]
+        if ra["status"] != "ok" or rb["status"] != "ok" or ra.get("out") != rb.get("out"):
+            cm.violation(ctx, "failing-input", {
+                "what": "reader %s: two records of %d symbols read differently as one line per sequence (%s %s) and wrapped at 70 columns (%s %s)"
+                        % (reader, width, ra["status"], ra.get("err", "")[:120], rb["status"], rb.get("err", "")[:120]),
+                "case": {"op": "read_fasta", "reader": reader, "note": "file omitted (two records of %d random symbols on one line each)" % width}})
+
+
+_state = {}
+
+
+def coverage_extra(ctx):
+    return {"long_line_runs": _state.get("long_line_runs", 0)}
